@@ -1,7 +1,7 @@
 (* C17 — Ordinal suffixes are judged correctly for every number.
    This file pins the statements; it contains nothing but `exact` (+ non-vacuity Examples by vm_compute). *)
 Require Import Base Overlap Suggestion Tables_number Number NumberArith NumberLex NumberPasses NumberProofs.
-Require Import C17Tails C17TailsProofs C17Multi.
+Require Import C17Tails C17TailsProofs C17Multi C17Texts C17MultiText C17Unreach.
 From Coq Require Import String.
 From Coq Require Import List NArith Bool.
 Import ListNotations.
@@ -300,18 +300,134 @@ Check C17_url_email_needed :
   /\ lint_ascii_full (txt "write u@x.org the 2st time") = Ok (Some [mkmlint (mkspan 19 21) [ReplaceWith (txt "nd")]]).
 Print Assumptions C17_url_email_needed.
 
-(* Several numbers in one document, RULE LEVEL (partial: the text-level list form of C17_lint_iff still needs a
-   lexer shape lemma for several instances): on ANY token list whose suffixed Number tokens carry known values the
+(* Several numbers in one document, RULE LEVEL: on ANY token list whose suffixed Number tokens carry known values the
    rule's output is the concatenation, in document order, of one independent verdict per token (`judge`: exactly one
-   lint on the last two characters when the suffix is wrong, nothing otherwise) — one lint per wrong number. *)
-Theorem C17_rule_per_number_partial :
+   lint on the last two characters when the suffix is wrong, nothing otherwise).  (Was C17_rule_per_number_partial; the
+   text-level list form it lacked is C17_lint_list below.) *)
+Theorem C17_rule_per_number :
   forall l : list token, known_values l ->
   rule l = Some (flat_map judge l) /\ (forall t, length (judge t) <= 1).
 Proof. exact (fun l H => conj (rule_per_number l H) judge_length). Qed.
-Check C17_rule_per_number_partial :
+Check C17_rule_per_number :
   forall l : list token, known_values l ->
   rule l = Some (flat_map judge l) /\ (forall t, length (judge t) <= 1).
-Print Assumptions C17_rule_per_number_partial.
+Print Assumptions C17_rule_per_number.
+
+(* ================================================================================================
+   TEXT LEVEL, SEVERAL ORDINALS: "one lint per wrong ordinal".  A text is given by its instances (the stretch in
+   front, the digits, the two suffix letters) and the final right context (Model/C17Texts.v):
+       mtext [i1; ..; ik] post = pre1 ++ D1 ++ [a1; b1] ++ pre2 ++ D2 ++ [a2; b2] ++ .. ++ post.
+   mctx_ok U l post (decidable, syntactic): every pre_j has no numeric character, no '[', no '@' and does not end in
+   a word character; every D_j is a non-empty ASCII digit string with value < 2^53; [a_j; b_j] is one of the 16
+   casings; what follows a suffix (the next pre_j — hence not empty — or post) does not start with a word character
+   or a digit; post has no numeric character and no '@'; the text has no "://" and no '.' directly followed by
+   [A-Za-z0-9-].  For k = 1 this is ctx_ok + the hypotheses of C17_lint_digits (C17_list_extends_one).
+   Conclusion: the document is built without panic and the rule reports exactly mexpected 0 l: in document order,
+   for each instance nothing when its suffix is the ordinal one, otherwise one lint on exactly its two suffix letters
+   with the single suggestion ReplaceWith(correct suffix); so the number of lints is the number of wrong instances.
+   The proof runs condense_indices with ALL its merges (ci_spans, ci_mid, the three slices) by induction over the
+   instance list.
+   ================================================================================================ *)
+Theorem C17_lint_list :
+  forall (U : uni) (ut : text -> nat) (et : text -> nat -> option nat) (pp : text -> list token -> list token),
+  ascii_laws U -> numbers_preserved pp ->
+  forall (l : list inst) (post : text),
+  mctx_ok U l post = true ->
+  lint_text U ut et pp (mtext l post) = Ok (Some (mexpected 0 l))
+  /\ length (mexpected 0 l) = length (filter wrongb l).
+Proof. exact (fun U ut et pp HU Hpp l post H => conj (lint_list_thm U ut et pp HU Hpp l post H) (mexpected_count l 0)). Qed.
+Check C17_lint_list :
+  forall (U : uni) (ut : text -> nat) (et : text -> nat -> option nat) (pp : text -> list token -> list token),
+  ascii_laws U -> numbers_preserved pp ->
+  forall (l : list inst) (post : text),
+  mctx_ok U l post = true ->
+  lint_text U ut et pp (mtext l post) = Ok (Some (mexpected 0 l))
+  /\ length (mexpected 0 l) = length (filter wrongb l).
+Print Assumptions C17_lint_list.
+
+(* the token level of the same: the document of such a text (before the later passes) contains exactly one Number
+   token per instance, in order, each spanning digits + suffix letters and carrying value and suffix *)
+Theorem C17_doc_number_tokens :
+  forall (U : uni) (ut : text -> nat) (et : text -> nat -> option nat),
+  ascii_laws U ->
+  forall (l : list inst) (post : text),
+  mctx_ok U l post = true ->
+  exists T, doc_tokens U ut et (mtext l post) = Ok T /\ filter is_number T = mlist 0 l.
+Proof. exact doc_multi_shape. Qed.
+Check C17_doc_number_tokens :
+  forall (U : uni) (ut : text -> nat) (et : text -> nat -> option nat),
+  ascii_laws U ->
+  forall (l : list inst) (post : text),
+  mctx_ok U l post = true ->
+  exists T, doc_tokens U ut et (mtext l post) = Ok T /\ filter is_number T = mlist 0 l.
+Print Assumptions C17_doc_number_tokens.
+
+(* k = 1: the hypotheses of C17_lint_digits put the one-instance text into the class, with the same text and verdict;
+   and render n is an admissible digit string exactly as in C17_lint_iff *)
+Theorem C17_list_extends_one :
+  (forall (U : uni) (pre D : text) (a b : N) (sx : suffix) (post : text),
+   D <> [] -> Forall (fun c => is_ascii_digit c = true) D -> (parse_dec D < two53)%N ->
+   from_chars [a; b] = Some sx -> ctx_ok U pre D [a; b] post = true ->
+   mctx_ok U [mkinst pre D a b] post = true
+   /\ mtext [mkinst pre D a b] post = pre ++ D ++ [a; b] ++ post
+   /\ mexpected 0 [mkinst pre D a b] = expected pre D sx (parse_dec D))
+  /\ (forall n : N, (n < two53)%N -> digits_okb (render n) = true).
+Proof. exact (conj mctx_ok_one digits_okb_render). Qed.
+Check C17_list_extends_one :
+  (forall (U : uni) (pre D : text) (a b : N) (sx : suffix) (post : text),
+   D <> [] -> Forall (fun c => is_ascii_digit c = true) D -> (parse_dec D < two53)%N ->
+   from_chars [a; b] = Some sx -> ctx_ok U pre D [a; b] post = true ->
+   mctx_ok U [mkinst pre D a b] post = true
+   /\ mtext [mkinst pre D a b] post = pre ++ D ++ [a; b] ++ post
+   /\ mexpected 0 [mkinst pre D a b] = expected pre D sx (parse_dec D))
+  /\ (forall n : N, (n < two53)%N -> digits_okb (render n) = true).
+Print Assumptions C17_list_extends_one.
+
+(* non-vacuity: `3th 2st, 11th and 113rd, 0021st.` — five instances (one correct, one with leading zeros), in the class,
+   four lints *)
+Example C17_ex_list :
+  mtext ex_list (txt ".") = txt "3th 2st, 11th and 113rd, 0021ST."
+  /\ mctx_ok ascii_uni ex_list (txt ".") = true
+  /\ mexpected 0 ex_list =
+      [mkmlint (mkspan 1 3) [ReplaceWith (txt "rd")]; mkmlint (mkspan 5 7) [ReplaceWith (txt "nd")];
+       mkmlint (mkspan 21 23) [ReplaceWith (txt "th")]]
+  /\ lint_ascii (txt "3th 2st, 11th and 113rd, 0021ST.") = Ok (Some (mexpected 0 ex_list))
+  /\ length (filter wrongb ex_list) = 3.
+Proof. vm_compute. repeat split; reflexivity. Qed.
+
+(* ================================================================================================
+   Unreachable code (mutation C17-d4): validate_local_part's test `local_part.first() == '.'` can never decide
+   anything through PlainEnglish::parse — a token that starts with '.' is the Period (lex_punctuation is asked before
+   lex_email_address), so ANY two e-mail tails that agree on texts not starting with '.' give the same tokens, the
+   same document and the same lints for every text; the model's tail and the tail without that test are such a pair
+   (they differ as functions: C17_ex_unreach).
+   ================================================================================================ *)
+Theorem C17_email_leading_dot_unreachable :
+  (forall U ut et rest, lex_token U ut et (46%N :: rest) = Some (1, KPunct PPeriod))
+  /\ (forall U ut et1 et2, agree_off_dot et1 et2 ->
+      forall pp src, lex_doc U ut et1 src = lex_doc U ut et2 src
+                     /\ doc_tokens U ut et1 src = doc_tokens U ut et2 src
+                     /\ lint_text U ut et1 pp src = lint_text U ut et2 pp src)
+  /\ agree_off_dot email_tail email_tail_d4
+  /\ (forall U src, run_lex U (url_tail U) email_tail_d4 src = run_lex_full U src
+                    /\ run_doc U (url_tail U) email_tail_d4 src = run_doc_full U src).
+Proof. exact email_leading_dot_unreachable. Qed.
+Check C17_email_leading_dot_unreachable :
+  (forall U ut et rest, lex_token U ut et (46%N :: rest) = Some (1, KPunct PPeriod))
+  /\ (forall U ut et1 et2, agree_off_dot et1 et2 ->
+      forall pp src, lex_doc U ut et1 src = lex_doc U ut et2 src
+                     /\ doc_tokens U ut et1 src = doc_tokens U ut et2 src
+                     /\ lint_text U ut et1 pp src = lint_text U ut et2 pp src)
+  /\ agree_off_dot email_tail email_tail_d4
+  /\ (forall U src, run_lex U (url_tail U) email_tail_d4 src = run_lex_full U src
+                    /\ run_doc U (url_tail U) email_tail_d4 src = run_doc_full U src).
+Print Assumptions C17_email_leading_dot_unreachable.
+Example C17_ex_unreach :
+  email_tail (txt ".a@b.c") 2 = None /\ email_tail_d4 (txt ".a@b.c") 2 = Some 6
+  /\ run_lex_full ascii_uni (txt ".a@b.c") = Some [(0, 1, (5, 2)); (1, 6, (9, 0))]
+  /\ run_lex ascii_uni (url_tail ascii_uni) email_tail_d4 (txt ".a@b.c") = Some [(0, 1, (5, 2)); (1, 6, (9, 0))].
+Proof. exact unreach_example. Qed.
+
 Example C17_ex_multi :
   lint_ascii (txt "3th 2st, 11th and 113rd") =
     Ok (Some [mkmlint (mkspan 1 3) [ReplaceWith (txt "rd")]; mkmlint (mkspan 5 7) [ReplaceWith (txt "nd")];
